@@ -1,7 +1,7 @@
 //! Verification seams (compiled only with `--cfg quandary_verif`): re-exports of
 //! the simulated runtime and the adapters that must live in this crate because
 //! the socket traits are crate-private.
-pub use quandary_simrt::{fs, hash, rand, sync, thread, time};
+pub use quandary_simrt::{fs, hash, rand, signal, sync, thread, time};
 
 pub mod net {
     pub use quandary_simrt::net::{TcpListener, TcpStream, UdpSocket};
